@@ -164,12 +164,13 @@ def write_evidence(pid, mod, tier, seed, m, wall, nviol, extra=None):
     'wall_s': round(wall, 2),
     'violations': int(nviol),
   }
-  os.makedirs(os.path.join(VERIF, 'evidence'), exist_ok=True)
-  tmp = os.path.join(VERIF, 'evidence', pid + '.json.tmp')
+  evdir = os.environ.get('VERIF_EVIDENCE_DIR') or os.path.join(VERIF, 'evidence')
+  os.makedirs(evdir, exist_ok=True)
+  tmp = os.path.join(evdir, pid + '.json.tmp')
   with open(tmp, 'w') as f:
     json.dump(ev, f, indent=1, sort_keys=True, default=repr)
     f.write('\n')
-  os.replace(tmp, os.path.join(VERIF, 'evidence', pid + '.json'))
+  os.replace(tmp, os.path.join(evdir, pid + '.json'))
 
 
 def main(argv=None):
@@ -224,7 +225,7 @@ def main(argv=None):
     print('KNOWN-FINDING: property=%s %s [%s]' % (pid, open_entries[mech]['what'], mech))
   m['counters']['known_finding_hits'] = sum(1 for v in m['violations'] if v.get('mech') in open_entries)
 
-  rdir = os.path.join(VERIF, 'replays')
+  rdir = os.environ.get('VERIF_REPLAY_DIR') or os.path.join(VERIF, 'replays')
   paths = []
   seen_mech = set()
   for v in unlisted:
